@@ -228,7 +228,7 @@ def run_property(prop_id, tier, seed, jobs, only=None):
         "seed": seed,
         "level": "model_checking",
         "coverage": {
-            "states": max(1, len(all_digests) if all_digests else total("nodes") + len(tasks)),
+            "states": max(1, sum(len(a["digests"]) if a["digests"] else a["nodes"] + a["shards"] for a in per_sub.values())),
             "transitions": max(1, total("edges")),
             "traces_validated_against_impl": total("executions"),
             "evaluations": total("executions"),
@@ -238,7 +238,7 @@ def run_property(prop_id, tier, seed, jobs, only=None):
             "exhaustive": not caps,
             "caps_hit": caps,
             "bounds": {s.name: s.bounds for s in subs},
-            "state_count_kind": "distinct canonical state digests" if all_digests else "choice-tree nodes",
+            "state_count_kind": "per sub-check: distinct canonical state digests where the driver records them, otherwise choice-tree nodes",
             "choice_tree_nodes": total("nodes"),
             "shards": len(tasks),
             "per_subcheck": {
@@ -247,6 +247,7 @@ def run_property(prop_id, tier, seed, jobs, only=None):
                     "skipped_out_of_scope": a["skipped"],
                     "tree_nodes": a["nodes"],
                     "distinct_states": len(a["digests"]),
+                    "states_counted": len(a["digests"]) if a["digests"] else a["nodes"] + a["shards"],
                     "nontrivial": a["nontrivial"],
                     "max_depth": a["max_depth"],
                     "violations": a["n_violations"],
